@@ -933,6 +933,16 @@ type hval struct {
 	addr sdk.ValAddress
 	key  *ecdsa.PrivateKey
 	eth  common.Address
+	// the validator's account on the second chain (two-chain environments): ANOTHER key, another address
+	keyB *ecdsa.PrivateKey
+	ethB common.Address
+}
+
+func (v hval) on(chain int) (*ecdsa.PrivateKey, common.Address) {
+	if chain == 1 {
+		return v.keyB, v.ethB
+	}
+	return v.key, v.eth
 }
 
 type henv struct {
@@ -1035,10 +1045,14 @@ func newEnvChains(t *testing.T, r *rand.Rand, live bool, two bool) *henv {
 		key, err := crypto.GenerateKey()
 		must(err)
 		hv := hval{addr: valAddr(i), key: key, eth: crypto.PubkeyToAddress(key.PublicKey)}
+		hv.keyB, err = crypto.GenerateKey()
+		must(err)
+		hv.ethB = crypto.PubkeyToAddress(hv.keyB.PublicKey)
 		e.vals = append(e.vals, hv)
 		var infos []*valsettypes.ExternalChainInfo
-		for _, c := range e.chains { // one account for all chains
-			infos = append(infos, &valsettypes.ExternalChainInfo{ChainType: "evm", ChainReferenceID: c, Address: hv.eth.Hex(), Pubkey: hv.eth.Bytes()})
+		for ci, c := range e.chains { // a different account on every chain
+			_, a := hv.on(ci)
+			infos = append(infos, &valsettypes.ExternalChainInfo{ChainType: "evm", ChainReferenceID: c, Address: a.Hex(), Pubkey: a.Bytes()})
 		}
 		must(f.ValsetKeeper.AddExternalChainInfo(e.ctx, hv.addr, infos))
 	}
@@ -1143,15 +1157,27 @@ func (e *henv) q(t *testing.T) consensus.Queuer {
 
 // the snapshot projected to this chain's compass valset, read through the public pieces the
 // attestation itself uses
-func (e *henv) snapVS(id uint64) (vset, bool) {
+func (e *henv) snapVS(id uint64) (vset, bool) { return e.snapVSOn(id, 0) }
+
+// the snapshot as the compass of the given chain knows it: the direct projection, computed for THAT chain
+func (e *henv) snapVSOn(id uint64, chain int) (vset, bool) {
 	sn, err := e.f.ValsetKeeper.FindSnapshotByID(e.ctx, id)
 	if err != nil || sn == nil {
 		return vset{}, false
 	}
-	v := evmkeeper.VerifC07TransformSnapshot(sn, chainName)
+	v := evmkeeper.VerifC07TransformSnapshot(sn, e.chains[chain])
 	out := vset{ID: v.ValsetID, Pows: v.Powers}
+	mine := map[common.Address]bool{}
+	for _, hv := range e.vals {
+		_, a := hv.on(chain)
+		mine[a] = true
+	}
 	for _, s := range v.Validators {
-		out.Vals = append(out.Vals, common.HexToAddress(s))
+		a := common.HexToAddress(s)
+		if !mine[a] {
+			panic(fmt.Sprintf("projection of snapshot %d for chain %d names %s, not an account of that chain", id, chain, s))
+		}
+		out.Vals = append(out.Vals, a)
 	}
 	return out, true
 }
@@ -1186,12 +1212,15 @@ func (e *henv) queued(t *testing.T) []qmsg {
 	return out
 }
 
-func (e *henv) sign(m consensustypes.QueuedSignedMessageI, v hval) ([]byte, error) {
+func (e *henv) sign(m consensustypes.QueuedSignedMessageI, v hval) ([]byte, error) { return e.signOn(m, v, 0) }
+
+func (e *henv) signOn(m consensustypes.QueuedSignedMessageI, v hval, chain int) ([]byte, error) {
 	bz, err := m.GetBytesToSign(e.f.Codec)
 	if err != nil {
 		return nil, err
 	}
-	return crypto.Sign(crypto.Keccak256(append([]byte(evmkeeper.SignaturePrefix), bz...)), v.key)
+	k, _ := v.on(chain)
+	return crypto.Sign(crypto.Keccak256(append([]byte(evmkeeper.SignaturePrefix), bz...)), k)
 }
 
 // state facts the success follow-ups write
@@ -2422,7 +2451,7 @@ func (h *history) attestMsg(m qmsg) int {
 	b, w := h.known[m.id], h.win[m.id]
 	vs := vset{}
 	if vid := h.vsid[m.id]; vid != 0 {
-		vs, _ = e.snapVS(vid)
+		vs, _ = e.snapVSOn(vid, b.Chain)
 	}
 	was := w.kind == 1 && e.evm.VerifC07IsTxProcessed(e.ctx, w.tx.tx)
 	before, f0 := h.ids(), e.facts(t)
@@ -2511,7 +2540,11 @@ func (h *history) publicAccess(id uint64, vid uint64) {
 		h.reporter[id] = rep
 	}
 	h.logf("public access id=%d valset=%d", id, vid)
-	h.record(fmt.Sprintf("C07.XValset %d %d", id, vid), 0)
+	mv := vid
+	if vid != 0 { // the model files the projection of snapshot vid for chain c under vid + 1000 c
+		mv = vid + 1000*uint64(h.known[id].Chain)
+	}
+	h.record(fmt.Sprintf("C07.XValset %d %d", id, mv), 0)
 }
 
 func (h *history) signBy(id uint64, k int) {
@@ -2521,24 +2554,26 @@ func (h *history) signBy(id uint64, k int) {
 		h.t.Fatalf("message %d not queued", id)
 	}
 	v := e.vals[k]
-	sg, err := e.sign(m.raw, v)
+	ch := h.known[id].Chain
+	_, acct := v.on(ch)
+	sg, err := e.signOn(m.raw, v, ch)
 	if err != nil {
 		h.t.Fatal(err)
 	}
-	qn := e.queues[h.known[id].Chain]
-	if err := e.f.ConsensusKeeper.AddMessageSignature(e.ctx, v.addr, []*consensustypes.ConsensusMessageSignature{{Id: id, QueueTypeName: qn, Signature: sg, SignedByAddress: v.eth.Hex()}}); err != nil {
+	qn := e.queues[ch]
+	if err := e.f.ConsensusKeeper.AddMessageSignature(e.ctx, v.addr, []*consensustypes.ConsensusMessageSignature{{Id: id, QueueTypeName: qn, Signature: sg, SignedByAddress: acct.Hex()}}); err != nil {
 		h.t.Fatal(err)
 	}
-	h.sigs[id] = append(h.sigs[id], sigE{v.eth, sg})
-	h.logf("sign id=%d by v%d", id, k)
-	h.record(fmt.Sprintf("C07.XSign %d %s", id, emit.Pair(emit.ZI(addrID(v.eth)), emit.ZI(tab.id(sg)))), 0)
+	h.sigs[id] = append(h.sigs[id], sigE{acct, sg})
+	h.logf("sign id=%d by v%d (chain %d account %s)", id, k, ch, acct.Hex())
+	h.record(fmt.Sprintf("C07.XSign %d %s", id, emit.Pair(emit.ZI(addrID(acct)), emit.ZI(tab.id(sg)))), 0)
 }
 
 // the right transaction for a queued message: its call with the first i collected signatures
 func (h *history) rightTx(id uint64, i int, nonce uint64) *txInfo {
 	vs := vset{}
 	if vid := h.vsid[id]; vid != 0 {
-		vs, _ = h.e.snapVS(vid)
+		vs, _ = h.e.snapVSOn(vid, h.known[id].Chain)
 	}
 	return h.addTx(h.known[id].correct(id, h.gas[id], vs, h.sigs[id], i), nonce)
 }
@@ -2559,9 +2594,11 @@ func newScenario(t *testing.T, run *emit.Run, live, two bool) (*history, []strin
 	h := &history{t: t, run: run, e: e, p: newPools(r), win: map[uint64]winInfo{}, reports: map[uint64][]valReport{}, reporter: map[uint64]int{}, known: map[uint64]*bodyT{}, usedTx: map[int64]uint64{}, done: map[uint64]bool{},
 		vsid: map[uint64]uint64{}, gas: map[uint64]uint64{}, sigs: map[uint64][]sigE{}}
 	var snaps []string
-	for _, id := range e.snaps {
-		v, _ := e.snapVS(id)
-		snaps = append(snaps, emit.Pair(emit.ZU(id), v.coq()))
+	for ci := range e.chains {
+		for _, id := range e.snaps {
+			v, _ := e.snapVSOn(id, ci)
+			snaps = append(snaps, emit.Pair(emit.ZU(id+1000*uint64(ci)), v.coq()))
+		}
 	}
 	for _, m := range e.queued(t) {
 		_ = e.q(t).Remove(e.ctx, m.id)
@@ -2948,6 +2985,85 @@ func (h *history) reporterPays(b0 *bodyT) int {
 	cls := h.attestMsg(m)
 	h.run.Count("B.reporter-pays", fmt.Sprintf("kind=%d class=%d", b.Kind, cls))
 	return cls
+}
+
+// queryValset: the real GetValsetByID query (what every pigeon asks before it signs or relays): the answer must be the
+// projection of that snapshot for THAT chain
+func (h *history) queryValset(vid uint64, chain int) {
+	e := h.e
+	resp, err := e.evm.GetValsetByID(e.ctx, &evmtypes.QueryGetValsetByIDRequest{ValsetID: vid, ChainReferenceID: e.chains[chain]})
+	if err != nil {
+		h.t.Fatalf("GetValsetByID: %v", err)
+	}
+	want, _ := e.snapVSOn(vid, chain)
+	got := vset{ID: resp.Valset.ValsetID, Pows: resp.Valset.Powers}
+	for _, a := range resp.Valset.Validators {
+		got.Vals = append(got.Vals, common.HexToAddress(a))
+	}
+	h.logf("query GetValsetByID(%d, chain %d)", vid, chain)
+	h.run.Count("B.op", "query-valset")
+	if got.coq() != want.coq() {
+		h.run.Violate("C07:valset-of-another-chain", fmt.Sprintf("GetValsetByID(valset %d, chain %d) answers with accounts that are not the validators' accounts on that chain", vid, chain),
+			map[string]any{"part": "B", "seed": h.run.Seed, "history": append([]string{}, h.log...)})
+	}
+}
+
+// runTwoChains: two EVM chains on which every validator uses a DIFFERENT account.  Messages on both chains name the SAME
+// snapshot in their public access data; attestations and GetValsetByID queries for the two chains are interleaved.  The call a
+// message of chain B expects carries chain B's accounts: a transaction with chain A's validator set must be refused for it,
+// its own transaction accepted -- whatever was projected for the other chain before.
+func runTwoChains(t *testing.T, run *emit.Run) {
+	r := run.Rng
+	h, snaps, n0 := newScenario(t, run, true, true)
+	e := h.e
+	vid := e.snaps[r.Intn(len(e.snaps))]
+	kind := []int{kUpdateValset, kUpdateValset, kSLC, kHandover}[r.Intn(4)]
+	mkOn := func(chain int) uint64 {
+		b := h.p.body(kind)
+		b.Chain = chain
+		_, acct := e.vals[0].on(chain)
+		b.Relayer = acct.Hex()
+		if kind == kUpdateValset {
+			sid := e.snaps[r.Intn(len(e.snaps))]
+			b.NewVS, _ = e.snapVSOn(sid, chain)
+			b.Key = sid
+		}
+		id := h.put(b)
+		h.publicAccess(id, vid)
+		for _, k := range r.Perm(len(e.vals))[:1+r.Intn(3)] {
+			h.signBy(id, k)
+		}
+		return id
+	}
+	order := []int{0, 1}
+	if r.Intn(3) == 0 {
+		order = []int{1, 0}
+	}
+	var nonce uint64
+	for round := 0; round < 2; round++ {
+		for _, ch := range order {
+			if r.Intn(2) == 0 {
+				h.queryValset(vid, r.Intn(2))
+			}
+			id := mkOn(ch)
+			b := h.known[id]
+			foreign := r.Intn(3) == 0
+			var x *txInfo
+			nonce++
+			if foreign { // the message's call, but with the OTHER chain's projection of the same snapshot (and signatures filed under it)
+				ovs, _ := e.snapVSOn(vid, 1-ch)
+				x = h.addTx(b.correct(id, h.gas[id], ovs, h.sigs[id], len(h.sigs[id])), nonce)
+			} else {
+				x = h.rightTx(id, 1+r.Intn(len(h.sigs[id])), nonce)
+			}
+			h.everybodyReports(id, x, 1)
+			m, _ := h.msgByID(id)
+			cls := h.attestMsg(m)
+			run.Count("B.two-chains", fmt.Sprintf("kind=%d chain=%d foreign-valset=%v class=%d", kind, ch, foreign, cls))
+		}
+		h.queryValset(vid, r.Intn(2))
+	}
+	h.finish(snaps, n0)
 }
 
 // endBlock: the attestation loop of the consensus end-blocker.  full=false calls the public
@@ -3346,7 +3462,7 @@ func TestCorr(t *testing.T) {
 			if (i/8)%2 == 0 {
 				runUpgrade(t, run)
 			} else {
-				runHistory(t, run, i)
+				runTwoChains(t, run)
 			}
 		default:
 			runHistory(t, run, i)
